@@ -7,6 +7,13 @@ CHECKS = {
         "text": "Every (mnemonic x syntactic form x boundary value x radix) row, every branch distance -140..140 in six placements and (thorough) every ordered pair of 1125 statement forms with 4 separators is assembled by the real library and compared byte-for-byte with a hand-written 151-opcode ISA table; illegal cases must yield a diagnostic. The finite spaces are enumerated completely, operand values by boundary classes plus seeded random values/expressions.",
         "note": "Trusts harness/oracle/isa6502.py. Operands outside 0..65535 are observed, not judged. Quick tier covers the pair space by representative mnemonics squared plus a 150k seeded sample; thorough enumerates it completely.",
     },
+    "C02": {
+        "engine": "probe",
+        "category": "exploration",
+        "technique": "runtime monitoring: fixed-point certificate checker over the assembler's claimed symbol values and images for generated programs with ground-truth bindings (+ CLI slice for .vs/.prg)",
+        "text": "ProgGen builds abstract programs whose every identifier use is bound to a chosen definition and spelled so that the documented lookup rule resolves to it (plain, dotted, super-chains, import aliases). Each program that assembles is walked in emission order with a running pc: every label, block -/+ symbol and constant must equal what the walk demands, every instruction and data item must encode its expression under the claimed final values (ISA table, zero-page exactly when value <= 255), images must be exact including `* =` gaps, .align padding and relocated segments; the VICE export must list exactly the labels of the final pass. Segments start around $00E0-$0100 so that zp/abs flips move later labels; evidence reports pass-count histogram and how many programs changed symbol values after pass 2.",
+        "note": "Trusts isa6502.py/exprval.py/certcheck.py and the generator's model of the lookup rule (a mis-spelled reference would show as a certificate failure, i.e. a false alarm, never as a missed violation). Rejected programs are not judged. -/+ inside loop bodies are left to C07.",
+    },
     "C03": {
         "engine": "probe",
         "category": "exploration",
